@@ -1,9 +1,10 @@
 (* C32 — The concurrent hash table is a linearizable map across resizes.
-   Statements only; proofs in HashT/HashTHashProofs.v, HashT/HashTSeqProofs.v.
+   Statements only; proofs in HashT/HashTHashProofs.v, HashT/HashTSeqProofs.v, HashT/HashTLinProofs.v.
    Model: HashT/HashTDefs.v (parsec/class/parsec_hash_table.c: chain of tables newest first,
    buckets as lists with their cur_len counters, used_buckets, migration by find, unlinking of
    emptied old tables, resize decided from the collision hint at insert / unlock_bucket). *)
-From PV Require Import Base.Tac Base.ListX HashT.HashTDefs HashT.HashTHashProofs HashT.HashTSeqProofs.
+From PV Require Import Base.Tac Base.ListX HashT.HashTDefs HashT.HashTHashProofs HashT.HashTSeqProofs
+  HashT.HashTConcDefs HashT.HashTLinDefs HashT.HashTLinProofs.
 
 (* ---- (2) parsec_hash_table_universal_rehash (64-bit wrapping multiply-shift) ---- *)
 (* the bucket index is always inside the table, for every key and every table size *)
@@ -38,6 +39,52 @@ Theorem C32_each_binding_once : forall h m, Rep h m ->
 Proof. exact rep_exactly_once. Qed.
 Print Assumptions C32_each_binding_once.
 
+(* ---- (3) concurrency, at critical-section granularity (model: HashT/HashTLinDefs.v) ----
+   Any number of threads, each running any sequence of insert / find / remove; one step = one
+   lock-protected section (read lock, newest bucket lock + search of the newest bucket, one old
+   table under its bucket lock, unlock, read unlock, the resize under the write lock); locks are
+   primitives.  For EVERY schedule: if no insert met its key already present (clients respect the
+   API's precondition), the operations ordered by their linearization points, with the results
+   they returned, are a legal history of the finite map, and the table represents that map. *)
+Theorem C32_linearizable : forall bits hint maxbits progs sched,
+  let c := lrun (linit bits hint maxbits progs) sched in
+  l_bad c = false ->
+  spec_pre_run fempty (log_ops (l_log c)) /\
+  spec_run fempty (log_ops (l_log c)) (log_res (l_log c)) /\
+  Rep (l_h c) (spec_final fempty (log_ops (l_log c))).
+Proof. exact linearizable. Qed.
+Print Assumptions C32_linearizable.
+
+(* the holder of the newest table's bucket lock of k owns k: two threads inside critical sections
+   hold different newest buckets, hence work on different keys ... *)
+Theorem C32_owners_distinct : forall bits hint maxbits progs sched,
+  let c := lrun (linit bits hint maxbits progs) sched in
+  l_bad c = false ->
+  forall t u a b, t <> u -> nth_error (l_thr c) t = Some a -> nth_error (l_thr c) u = Some b ->
+  in_cs a = true -> in_cs b = true ->
+  bidx (top_bits (l_h c)) (lt_key a) <> bidx (top_bits (l_h c)) (lt_key b) /\ lt_key a <> lt_key b.
+Proof. exact owners_distinct. Qed.
+Print Assumptions C32_owners_distinct.
+
+(* ... and a step of a thread changes the binding of no key but the one of its own operation, in
+   whichever table that binding is stored (old tables are touched under their own bucket locks by
+   owners of other keys: they only unlink their own item) *)
+Theorem C32_step_keeps_other_keys : forall c u th, Good c -> l_bad (lstep c u) = false ->
+  nth_error (l_thr c) u = Some th ->
+  forall k, k <> lt_key th -> lookup (l_h (lstep c u)) k = lookup (l_h c) k.
+Proof. exact step_keeps_other_keys. Qed.
+Print Assumptions C32_step_keeps_other_keys.
+
+(* at every reachable state, in particular the quiescent ones where for_all may run, the traversal
+   order lists each binding of the linearized map exactly once *)
+Theorem C32_reachable_for_all : forall bits hint maxbits progs sched,
+  let c := lrun (linit bits hint maxbits progs) sched in
+  l_bad c = false ->
+  NoDup (keys_of (all_items (l_h c))) /\
+  forall k v, In (k, v) (all_items (l_h c)) <-> spec_final fempty (log_ops (l_log c)) k = Some v.
+Proof. exact reachable_for_all. Qed.
+Print Assumptions C32_reachable_for_all.
+
 (* non-vacuity: a table of 2 buckets with collision hint 1; the third insertion stacks two
    items in bucket 1 and triggers a resize; find 5 migrates 5 from the old table; remove 7 takes
    7 out of the old table; the hypotheses of the theorem hold for this sequence *)
@@ -49,3 +96,18 @@ Example C32_example :
     [RUnit; RUnit; RUnit; RVal (Some 1); RVal (Some 3); RVal None; RItems [(5, 1); (6, 2)]]%N /\
   map t_bits (h_tabs (snd (run_ops (ht_init 1 1 24) C32_example_ops))) = [2; 1]%nat.
 Proof. split; [vm_compute; repeat split|]. split; vm_compute; reflexivity. Qed.
+
+(* non-vacuity of (3): two threads, interleaved section by section; the table is resized while both
+   run, thread 1 finds 5 (inserted by thread 0) and removes 7 from the old table; no insert met
+   its key (l_bad = false), all operations returned *)
+Definition C32_example_progs : list (list cop) :=
+  [[CIns 5 1; CIns 7 3; CFind 6]; [CIns 6 2; CFind 5; CRem 7]]%N.
+Definition C32_example_sched : list nat :=
+  [0;1;0;1;0;1;0;1;1;0;0;1;0;1;1;1;0;0;0;1;1;0;1;0;1;0;1;0;1;0;1;0;1;0;1;0;1;0;1;0;1;0;1;0;1;0;1;0;1]%nat.
+Example C32_example_conc :
+  let c := lrun (linit 1 1 24 C32_example_progs) C32_example_sched in
+  l_bad c = false /\
+  l_log c = [(0%nat, CFind 6, Some 2); (1%nat, CRem 7, Some 3); (0%nat, CIns 7 3, None); (1%nat, CFind 5, Some 1);
+             (1%nat, CIns 6 2, None); (0%nat, CIns 5 1, None)]%N /\
+  map lt_pc (l_thr c) = [LIdle; LIdle] /\ map t_bits (h_tabs (l_h c)) = [2; 1]%nat.
+Proof. vm_compute. repeat split. Qed.
